@@ -154,6 +154,17 @@ func runC18(t *sim.T, tier string) *sim.Violation {
 	for i := 0; i < nRT; i++ {
 		rtIn = append(rtIn, gen.MarshalFeed(gen.RichFeed(t)))
 	}
+	if t.Chance(1, 5) {
+		// a message that does not parse: error paths run concurrently with successful parses
+		src := rtIn[t.Choose(len(rtIn))]
+		bad := append([]byte(nil), src[:t.Choose(len(src))]...)
+		if t.Chance(1, 2) && len(bad) > 0 {
+			bad[t.Choose(len(bad))] ^= 0x40
+		}
+		rtIn = append(rtIn, bad)
+		nRT++
+		t.Probe("unparseable-shared-input")
+	}
 	nST := t.Choose(3)
 	var stIn [][]byte
 	for i := 0; i < nST; i++ {
